@@ -116,6 +116,7 @@ func cmdCheck(args []string) {
 	keep := fs.Bool("keep", false, "keep all query files")
 	verbose := fs.Bool("v", false, "verbose")
 	timeoutF := fs.Int("timeout", 0, "per-obligation timeout (s)")
+	noEv := fs.Bool("noevidence", false, "do not write evidence or replay files (selftest against scratch copies)")
 	fs.Parse(args)
 	if fs.NArg() < 1 {
 		fatal("usage: govc check [flags] <property-id>")
@@ -142,7 +143,7 @@ func cmdCheck(args []string) {
 	preludes, _ := filepath.Glob(filepath.Join(*verif, "prelude", "*.spec"))
 	sort.Strings(preludes)
 	e, err := loadEngine(*root, preludes)
-	rep := &Report{Prop: prop, Tier: *tier, Seed: *seedF, Verif: *verif, Plan: pp, t0: t0}
+	rep := &Report{Prop: prop, Tier: *tier, Seed: *seedF, Verif: *verif, Plan: pp, t0: t0, NoEvidence: *noEv}
 	if err != nil {
 		rep.fatalBuild(err)
 		return
@@ -207,7 +208,7 @@ func cmdCheck(args []string) {
 	for _, u := range units {
 		obls = append(obls, u.VC.obls...)
 	}
-	cfg := &SolverCfg{Names: []string{"z3-new", "z3", "cvc5"}, Timeout: 20 * time.Second, Seed: *seedF, WorkDir: filepath.Join(*verif, ".work", prop), Workers: 6, KeepQueries: *keep}
+	cfg := &SolverCfg{Names: []string{"z3-new", "z3", "cvc5"}, Timeout: 20 * time.Second, Seed: *seedF, WorkDir: filepath.Join(*verif, ".work", prop+workSuffix(*noEv)), Workers: 6, KeepQueries: *keep}
 	if *tier == "thorough" {
 		cfg.Timeout = 60 * time.Second
 	}
@@ -246,4 +247,11 @@ func cmdCheck(args []string) {
 type frameUnit struct {
 	fn *ssa.Function
 	fc *FuncContract
+}
+
+func workSuffix(scratch bool) string {
+	if scratch {
+		return fmt.Sprintf("-scratch%d", os.Getpid())
+	}
+	return ""
 }
